@@ -38,12 +38,18 @@ def run(ctx):
     n_obj, fails_obj = cc.clim_object_history(tier, rng, 120 if tier == "quick" else 1200)
     results[0]["failures"] += fails_obj
     results[0]["evaluations"] += n_obj
+    n_buf, fails_buf, reused = cc.shared_buffer_history(reg, tier, rng, 40 if tier == "quick" else 400)
+    results[0]["failures"] += fails_buf
+    results[0]["evaluations"] += n_buf
     out = adapters.merge(
         results,
         rule="per test (all 11 functions of qartod, argo, axds): a random sample of the in-domain generated cases of the "
              "per-test properties (lengths 0,1,2,... and every missing placement included), each call snapshotted before/"
              "after (purity), 15% repeated later, implementation vs Coq model; plus one interleaved history mixing all "
              "tests, executed twice in different orders; plus ClimatologyConfig OBJECTS reused across calls with other "
-             "series (flags equal to fresh calls, object state unchanged). non-trivial = >=2 distinct flags or raises")
+             "series (flags equal to fresh calls, object state unchanged); plus a history in which the "
+             "caller passes the SAME array objects to successive calls, overwritten in place between calls. non-trivial = >=2 distinct flags or raises")
     out["distribution"]["interleaved_history_calls"] = n_hist
+    out["distribution"]["buffer_reuse_calls"] = n_buf
+    out["distribution"]["buffers_overwritten_in_place"] = reused
     return out
